@@ -420,6 +420,13 @@ def rule_owner(ctx):
             if not any(o in repo.mro(c) for o in owners):
                 continue
             for name, f in sorted(c.methods.items()):
+                # dropping what is pending when the connection is gone is not a correlation error: replies to those
+                # requests can no longer arrive
+                on_down = any(isinstance(d, ast.Call) and unparse(d.func).split(".")[-1] == "EventCallback" and d.args and unparse(d.args[0]).endswith(("EVENT_STATE_DISCONNECTED", "EVENT_STATE_DISCONNECT"))
+                              for d in f.decorator_list)
+                if on_down:
+                    n += 1
+                    continue
                 for x in ast.walk(f):
                     bad = None
                     if isinstance(x, (ast.Assign, ast.AugAssign)):
